@@ -372,9 +372,22 @@ class TimeSeriesCausalGraph(CausalGraph):
                 destination_variable_name is not None
             ), 'Destination variable name is None, cannot create summary graph. The edge is: {}'.format(edge)
 
-            if source_variable_name != destination_variable_name and not summary_graph.is_edge_by_pair(
-                (source_variable_name, destination_variable_name)
-            ):
+            if source_variable_name == destination_variable_name:
+                continue
+
+            if summary_graph.is_edge_by_pair((destination_variable_name, source_variable_name)):
+                # edges in both directions (feedback) collapse to a bi-directed edge
+                reverse_edge = summary_graph.get_edge(destination_variable_name, source_variable_name)
+                if reverse_edge.get_edge_type() == EdgeType.DIRECTED_EDGE:
+                    summary_graph.remove_edge(destination_variable_name, source_variable_name)
+                    summary_graph.add_edge(
+                        destination_variable_name,
+                        source_variable_name,
+                        edge_type=EdgeType.BIDIRECTED_EDGE,
+                        meta=reverse_edge.meta,
+                        validate=False,
+                    )
+            elif not summary_graph.is_edge_by_pair((source_variable_name, destination_variable_name)):
                 # create the nodes
                 source = self._NodeCls(
                     identifier=source_variable_name,
@@ -389,7 +402,8 @@ class TimeSeriesCausalGraph(CausalGraph):
 
                 # create the edge
                 edge = self._EdgeCls(source=source, destination=destination, edge_type=edge.edge_type, meta=edge.meta)
-                summary_graph.add_edge(edge=edge)
+                # the summary graph may be cyclic, so do not validate
+                summary_graph.add_edge(edge=edge, validate=False)
 
         # There could be floating nodes in the original graph that should be maintained in the summary graph.
         # For example, X[t], Y[t-1]->Z[t], the summary graph should be X, Y->Z.
